@@ -87,17 +87,17 @@ PROPS["C04"] = dict(
     quick=dict(cases=2500, floor=20000),
     thorough=dict(cases=50000, floor=400000, fuzz=dict(time=360)),
     level="exploration",
-    level_text=("Stateful model-based testing: generated histories over a pool of four owning arrays (element int or an instrumented Tracked type, D in 1..4) of every constructor form, "
+    level_text=("Stateful model-based testing: generated histories over a pool of four owning arrays (element int or an instrumented Tracked type, D in 0..4) of every constructor form, "
                 "copy/move construction and assignment, assignment from generated views of another pool member, from arrays of convertible element type, from nested initializer lists, "
                 "self-assignment, swap, decay/unary plus, element writes and clear; after every step every slot is compared element by element with its (extents, vector) model, storage "
                 "ranges are pairwise disjoint, moves perform no element operation and transfer the buffer, and the Tracked registry shows no lifetime error. Bounded exploration."),
     technique="stateful model-based testing of generated operation histories against a (extents, vector) reference model (rapidcheck + libFuzzer)",
-    rule=("case = element type {int, Tracked} x D in 1..4 + up to 10 history records (operation, target slot, source slot, argument bytes, 4 bytes of view program for the from-view forms); "
+    rule=("case = element type {int, Tracked} x D in 0..4 + up to 10 history records (operation, target slot, source slot, argument bytes, 4 bytes of view program for the from-view forms); "
           "source views are produced by the dimension-preserving subset of the C01 interpreter (sliced, range, strided, dropped, taked, rotated, unrotated, transposed, reversed, call syntax "
           "with ranges/all) from the mutable or const source; oracle = model per slot. non-trivial = the history has >= 2 operations and contains an assignment over a prior state of different "
           "extents, or from a non-contiguous view, or onto a moved-from array; distinct = hash of decoded history text"),
     assumptions=COMMON_ASSUME[:1] + ["extents 0..4 per dimension", "constructor from an iterator pair is only called with a non-empty range of non-empty elements (the library dereferences *first; its own callers check size()==0 first)",
-                 "assignment from views with zero elements but non-zero leading size is excluded and counted (recorded known finding)", "D=0 arrays are not in this harness (array<T,0> copy construction only compiles with NDEBUG on the pinned tree)"],
+                 "D = 0 (one case in eight): arrays of exactly one element; the forms that instantiate are exercised (construction from a value, default construction, copy / move construction and assignment, swap, assignment of a value or of an array of convertible element type, self-assignment); a moved-from 0-D array keeps a valid, unspecified value"],
 )
 
 PROPS["C06"] = dict(
